@@ -622,7 +622,7 @@ func main() {
 			if len(tail) > 3000 {
 				tail = tail[len(tail)-3000:]
 			}
-			o := obs{Validate: 2, Submit: 2, Start: 3, Fresh: true, Panic: what + "\n" + tail, Taint: true}
+			o := obs{Validate: 4, Submit: 3, Start: 3, Fresh: true, Panic: what + "\n" + tail, Taint: true}
 			w.Put(mkCase(g, o, "None", "None"))
 			next++
 		}
